@@ -1169,6 +1169,7 @@ type Options struct {
 	Api       string   `json:"api"`
 	Park      int64    `json:"park"`
 	Gap       json.RawMessage `json:"gaphist"`
+	Blocks    int             `json:"blocks"`
 }
 
 // Run dispatches on the replay mode ("" = plain conformance replay).
@@ -1190,6 +1191,8 @@ func Run(u *Universe, h History, dir, mode string, opt Options) Result {
 		return CountQueryCalls(u, h, dir, opt.Api)
 	case "txbuild":
 		return ReplayTxBuild(u, h, dir, opt.Seed, opt.Sweep)
+	case "stop-free":
+		return StopFree(u, opt.Tasks, opt.Blocks, opt.Seed, opt.Final, dir)
 	case "gap":
 		return ReplayGap(opt.Gap, dir)
 	case "stop-schedule":
